@@ -139,7 +139,7 @@ SrcPath(n) == CASE n = "S" -> <<"S">> [] n = "N" -> <<"N">> [] n = "AIS" -> <<"A
                 [] n = "A" -> <<"A">> [] n = "W" -> <<"W">> [] n = "all" -> <<>>
                 [] n = "ms" -> <<"s">> [] n = "mt" -> <<"t">> [] n = "mn" -> <<"n">> [] n = "miS" -> <<"i", "S">>
 TgtPath(n) == CASE n = "S" -> <<"S">> [] n = "N" -> <<"N">> [] n = "AIS" -> <<"A", "I", "S">> [] n = "AMk" -> <<"A", "M", "k">>
-                [] n = "BPS" -> <<"B", "P", "S">> [] n = "MIkS" -> <<"MI", "k", "S">> [] n = "MIkN" -> <<"MI", "k", "N">> [] n = "MMkIS" -> <<"MM", "k", "I", "S">>
+                [] n = "BPS" -> <<"B", "P", "S">> [] n = "MIkS" -> <<"MI", "k", "S">> [] n = "MIkN" -> <<"MI", "k", "N">> [] n = "MMkIS" -> <<"MM", "k", "I", "S">> [] n = "MMkPS" -> <<"MM", "k", "P", "S">> [] n = "MMkMk" -> <<"MM", "k", "M", "k">>
                 [] n = "Xk" -> <<"X", "k">> [] n = "Xj" -> <<"X", "j">> [] n = "Xkj" -> <<"X", "k", "j">> [] n = "AI" -> <<"A", "I">> [] n = "A" -> <<"A">>
                 [] n = "all" -> <<>>
 
